@@ -28,6 +28,10 @@ PROPS = {
     },
 }
 
+DEV = ["c13_stale_probe","c13_stale_indirect","c13_stale_suspect","c13_stale_announce","c13_stale_gossip","c13_stale_announce_down",
+       "t_probe_k2","t_probe_k3","t_indirect_k2","t_indirect_k3","t_remove","t_announce","t_gossip","t_announce_down"]
+PROPS["DEV"] = {"level": "model_checking", "harnesses": [H(n) for n in DEV]}
+
 HOOK_COMMITS = ["2dd5aa0"]
 
 _MULTI = ("whole-cluster, many-period schedule property with no closed chain of local step obligations; multi-instance bounded "
